@@ -24,6 +24,9 @@ xor_uf = z3.Function('bitxor_uf', I, I, I)
 trail_f = z3.Function('trailing', I, I)   # number of trailing zero bits (spec)
 isqrt_f = z3.Function('isqrt', I, I)
 fact_f = z3.Function('fact', I, I)
+rval_f = z3.Function('rval', I, I, I, z3.RealSort())   # exact real value of a finite raw mpf (sign, man, exp)
+rfun_f = z3.Function('r_fun', I, z3.RealSort(), z3.RealSort())   # exp / log / sqrt / atan on the reals (uninterpreted)
+cfix_f = z3.Function('cfix', I, I)          # floor(c * 2**p) for an abstract positive real constant c
 
 
 class Val(object):
@@ -40,6 +43,18 @@ class IntV(Val):
 
     def __repr__(self):
         return 'IntV(%s)' % self.t
+
+
+class RealV(Val):
+    """value of a float expression, treated as an exact real (assumption: machine float
+    arithmetic is read as mathematical; float literals keep their exact binary value)"""
+    __slots__ = ('t',)
+
+    def __init__(self, t):
+        self.t = t
+
+    def __repr__(self):
+        return 'RealV(%s)' % self.t
 
 
 class BoolV(Val):
@@ -133,6 +148,11 @@ _fresh_counter = [0]
 def fresh_int(prefix='v'):
     _fresh_counter[0] += 1
     return z3.Int('%s!%d' % (prefix, _fresh_counter[0]))
+
+
+def fresh_real(prefix='r'):
+    _fresh_counter[0] += 1
+    return z3.Real('%s!%d' % (prefix, _fresh_counter[0]))
 
 
 def fresh_bool(prefix='b'):
